@@ -255,9 +255,16 @@ struct NowCase {
 fn now_cases(tier: Tier) -> Vec<NowCase> {
     let mut v = vec![];
     let as_ofs: Vec<(i64, i64)> = tier.pick(vec![(5000, 0), (5000, 999_999_999), (-1, 500_000_000)], vec![(5000, 0), (5000, 999_999_999), (-1, 500_000_000), (0, 0), (2_100_000_000, 1)]);
-    let ages: Vec<i128> = vec![-4 * S, -1001, -1000, -999, -1, 0, 1, 999, S, 5 * S - 1, 5 * S, 5 * S + 1, 999 * S, 1000 * S - 1, 1000 * S, 1000 * S + 1, 36_000 * S];
-    let bounds: Vec<i64> = vec![0, 77_000_001, (1 << 60) - 1];
-    let drifts: Vec<u32> = vec![0, 1000, 50_000, 999_999_999, 1_000_000_000];
+    let mut ages: Vec<i128> = vec![-4 * S, -1001, -1000, -999, -1, 0, 1, 999, S, 5 * S - 1, 5 * S, 5 * S + 1, 999 * S, 1000 * S - 1, 1000 * S, 1000 * S + 1, 36_000 * S];
+    // the structural age families of the client grid: (seconds x nanoseconds) in both signs; thorough: the wrap points too
+    ages.extend(crate::gridmc::clientgrid::two_component_ages());
+    if tier == Tier::Thorough {
+        ages.extend(crate::gridmc::clientgrid::wrap_ages());
+    }
+    ages.sort();
+    ages.dedup();
+    let bounds: Vec<i64> = tier.pick(vec![0, 77_000_001, (1 << 60) - 1], vec![0, 1, 999, 77_000_001, 999_999_999, 1 << 32, 1 << 53, (1 << 60) - 1]);
+    let drifts: Vec<u32> = tier.pick(vec![0, 1000, 50_000, 999_999_999, 1_000_000_000], vec![0, 1, 7, 1000, 50_000, 65_536, 999_999_999, 1_000_000_000, 2_000_000_000, u32::MAX]);
     let reals: Vec<i128> = vec![ts_ns(1_700_000_000, 999_999_999), ts_ns(-1_000_000, 5)];
     for (s, n) in &as_ofs {
         for b in &bounds {
@@ -265,6 +272,10 @@ fn now_cases(tier: Tier) -> Vec<NowCase> {
                 for st in 0..3u32 {
                     let rec = Rec { as_of_s: *s, as_of_ns: *n, va_s: *s + 1000, va_ns: 0, bound: *b, drift: *d, reserved: 0, status: st };
                     for a in &ages {
+                        // same domain as the client grid: readings within +/- 68 years
+                        if (ts_ns(*s, *n) + *a).abs() > 2_144_000_000 * S {
+                            continue;
+                        }
                         for r in &reals {
                             v.push(NowCase { rec, real_ns: *r, mono_ns: ts_ns(*s, *n) + *a, fail: (0, -1) });
                         }
